@@ -212,12 +212,45 @@ def validate(data):
                     sst.append(rst_text(si))
         if typ.endswith("/styles") and p in trees:
             st = trees[p]
+            tables = {}
             for c in st:
-                if local(c.tag) == "cellXfs":
-                    n_xfs = len([x for x in c if local(x.tag) == "xf"])
-                if local(c.tag) == "dxfs":
-                    n_dxfs = len([x for x in c if local(x.tag) == "dxf"])
+                if ns_of(c.tag) == NS_MAIN:
+                    tables[local(c.tag)] = [x for x in c if ns_of(x.tag) == NS_MAIN]
+            n_xfs = len([x for x in tables.get("cellXfs", []) if local(x.tag) == "xf"]) if "cellXfs" in tables else None
+            n_dxfs = len([x for x in tables.get("dxfs", []) if local(x.tag) == "dxf"])
+            # every index inside styles.xml points inside its table (CT_Xf: fontId, fillId, borderId, numFmtId, xfId)
+            n_fonts = len([x for x in tables.get("fonts", []) if local(x.tag) == "font"])
+            n_fills = len([x for x in tables.get("fills", []) if local(x.tag) == "fill"])
+            n_borders = len([x for x in tables.get("borders", []) if local(x.tag) == "border"])
+            n_sxfs = len([x for x in tables.get("cellStyleXfs", []) if local(x.tag) == "xf"])
+            fmt_ids = []
+            for nf in tables.get("numFmts", []):
+                if local(nf.tag) == "numFmt":
+                    fmt_ids.append(nf.get("numFmtId"))
+            if len(set(fmt_ids)) != len(fmt_ids):
+                errors.append("%s: duplicate numFmtId in numFmts" % p)
+            for which in ("cellStyleXfs", "cellXfs"):
+                for i, xf in enumerate([x for x in tables.get(which, []) if local(x.tag) == "xf"]):
+                    for attr, n, what in (("fontId", n_fonts, "fonts"), ("fillId", n_fills, "fills"), ("borderId", n_borders, "borders")):
+                        v = xf.get(attr)
+                        if v is not None and (not v.isdigit() or int(v) >= n):
+                            errors.append("%s: %s[%d] %s %s outside %s (%d)" % (p, which, i, attr, v, what, n))
+                    v = xf.get("numFmtId")
+                    if v is not None and (not v.isdigit() or (int(v) >= 164 and v not in fmt_ids)):
+                        errors.append("%s: %s[%d] numFmtId %s is not declared in numFmts" % (p, which, i, v))
+                    v = xf.get("xfId")
+                    if which == "cellXfs" and v is not None and "cellStyleXfs" in tables and (not v.isdigit() or int(v) >= n_sxfs):
+                        errors.append("%s: cellXfs[%d] xfId %s outside cellStyleXfs (%d)" % (p, i, v, n_sxfs))
+            for i, cs in enumerate([x for x in tables.get("cellStyles", []) if local(x.tag) == "cellStyle"]):
+                v = cs.get("xfId")
+                if v is not None and (not v.isdigit() or int(v) >= max(n_sxfs, 1)):
+                    errors.append("%s: cellStyles[%d] xfId %s outside cellStyleXfs (%d)" % (p, i, v, n_sxfs))
+            for d in tables.get("dxfs", []):
+                for nf in d:
+                    if local(nf.tag) == "numFmt" and nf.get("numFmtId") is None:
+                        errors.append("%s: dxf numFmt without numFmtId" % p)
     seen_names, seen_ids, seen_parts = set(), set(), set()
+    table_ids, table_names = set(), set()
     sheets_el = [c for c in wb if local(c.tag) == "sheets"]
     sheet_names = []
     if not sheets_el:
@@ -255,6 +288,42 @@ def validate(data):
             errors.append("sheet part %s missing or not well-formed" % part)
             continue
         srels = read_rels(part)
+        for rid4, (typ4, tgt4, ext4) in srels.items():
+            kind4 = typ4.rsplit("/", 1)[-1]
+            p4 = resolve(dir_of(part), tgt4) if not ext4 else None
+            t4 = trees.get(p4) if p4 else None
+            if t4 is None:
+                continue
+            if kind4 == "table":
+                for a in ("headerRowDxfId", "dataDxfId", "totalsRowDxfId", "headerRowBorderDxfId", "tableBorderDxfId", "totalsRowBorderDxfId"):
+                    for el in t4.iter():
+                        v = el.get(a)
+                        if v is not None and (not v.isdigit() or int(v) >= n_dxfs):
+                            errors.append("%s: %s %s outside dxfs (%d)" % (p4, a, v, n_dxfs))
+                tid = t4.get("id")
+                if tid in table_ids:
+                    errors.append("%s: table id %s used twice" % (p4, tid))
+                table_ids.add(tid)
+                tn = (t4.get("displayName") or t4.get("name") or "").lower()
+                if tn in table_names:
+                    errors.append("%s: table name %s used twice" % (p4, tn))
+                table_names.add(tn)
+                cols4 = [x for x in t4.iter() if local(x.tag) == "tableColumn"]
+                ids4 = [x.get("id") for x in cols4]
+                if len(set(ids4)) != len(ids4):
+                    errors.append("%s: duplicate tableColumn id" % p4)
+            if kind4 == "comments":
+                n_auth = len([a for a in t4.iter() if local(a.tag) == "author"])
+                seen_refs = set()
+                for cm in t4.iter():
+                    if local(cm.tag) != "comment":
+                        continue
+                    aid = cm.get("authorId")
+                    if aid is None or not aid.isdigit() or int(aid) >= n_auth:
+                        errors.append("%s: comment %s authorId %s outside authors (%d)" % (p4, cm.get("ref"), aid, n_auth))
+                    if cm.get("ref") in seen_refs:
+                        errors.append("%s: two comments on %s" % (p4, cm.get("ref")))
+                    seen_refs.add(cm.get("ref"))
         # child order
         last = -1
         for c in tree:
@@ -296,6 +365,9 @@ def validate(data):
                         errors.append("%s: rows not strictly ascending at %s" % (part, rn))
                     if rn < 1 or rn > 1048576:
                         errors.append("%s: row %s out of range" % (part, rn))
+                    rs = row.get("s")
+                    if rs is not None and n_xfs is not None and (not rs.isdigit() or int(rs) >= max(n_xfs, 1)):
+                        errors.append("%s: row %s style index %s outside cellXfs (%s)" % (part, rn, rs, n_xfs))
                     last_row = rn
                     last_col = 0
                     for cell in row:
@@ -350,6 +422,21 @@ def validate(data):
                         if v is None and f is None and inline is None:
                             continue
                         sheet["cells"][ref] = {"k": kind, "v": val, "f": f}
+            elif n == "cols":
+                last_max = 0
+                for col in c:
+                    if local(col.tag) != "col":
+                        continue
+                    cs = col.get("style")
+                    if cs is not None and n_xfs is not None and (not cs.isdigit() or int(cs) >= max(n_xfs, 1)):
+                        errors.append("%s: col style index %s outside cellXfs (%s)" % (part, cs, n_xfs))
+                    mn, mx = col.get("min") or "", col.get("max") or ""
+                    if not mn.isdigit() or not mx.isdigit() or int(mn) < 1 or int(mx) > 16384 or int(mn) > int(mx):
+                        errors.append("%s: col min/max %s..%s out of range" % (part, mn, mx))
+                    elif int(mn) <= last_max:
+                        errors.append("%s: col ranges overlap or are not ascending at %s" % (part, mn))
+                    else:
+                        last_max = int(mx)
             elif n == "mergeCells":
                 for m in c:
                     if local(m.tag) == "mergeCell":
